@@ -276,9 +276,10 @@ REGISTRY["C13"] = {
     "rule": ("Distinct = (definition, history). Non-trivial = a step lands exactly on a due time, or jumps beyond >=2 due times of a cycle, or a cancellation comes between firings. Process level: >=2 clock steps."),
     "assumptions": ["process level: timers are not already due when the instance is built (that firing races the token's arrival at the catch event)"],
     "tests": [
-        {"name": "TestC13Unit", "checks": {"quick": 600, "thorough": 60000}, "shards": {"quick": 12, "thorough": 16}},
+        {"name": "TestC13Unit", "checks": {"quick": 600, "thorough": 25000}, "shards": {"quick": 12, "thorough": 16}},
         {"name": "TestC13Process", "checks": {"quick": 150, "thorough": 5000}, "shards": {"quick": 4, "thorough": 16}},
         {"name": "TestC13TwoInstances", "checks": {"quick": 100, "thorough": 3000}, "shards": {"quick": 2, "thorough": 8}},
+        {"name": "TestC13Funnel", "checks": {"quick": 150, "thorough": 4000}, "shards": {"quick": 4, "thorough": 16}},
     ],
 }
 
